@@ -537,6 +537,28 @@ pub fn cmd_text_dbcs(a: &HashMap<String, String>) -> i32 {
             }
         }
     }
-    println!("{}", json!({"events": n, "pairs": rows.len()}));
+    // encoder state x character: every character of the pool after a character of every code page (the page in force when a
+    // character is met decides which pages are tried and whether a marker is needed)
+    let prefixes = ["", "\u{e9}", "\u{3b1}", "\u{448}", "\u{11b}", "\u{11f}", "\u{101}", "\u{7f8e}", "\u{4eec}", "\u{ac00}", "\u{5011}"];
+    let pool: Vec<char> = a
+        .get("chars")
+        .and_then(|p| std::fs::read_to_string(p).ok())
+        .map(|s| s.split(',').filter_map(|t| t.trim().parse::<u32>().ok()).filter_map(char::from_u32).collect())
+        .unwrap_or_default();
+    for pre in prefixes {
+        for ch in pool.iter() {
+            let s: String = format!("{pre}{ch}z");
+            match guard(|| codepages::to_lossy_bytes(&s).to_vec()) {
+                Ok(b) => {
+                    let _ = writeln!(w, "{}", json!({"ev": "CpEnc", "in": cps(&s), "out": b}));
+                },
+                Err(()) => {
+                    let _ = writeln!(w, "{}", panic_ev("to_lossy_bytes", cps(&s)));
+                },
+            }
+            n += 1;
+        }
+    }
+    println!("{}", json!({"events": n, "pairs": rows.len(), "state_chars": pool.len()}));
     0
 }
